@@ -270,9 +270,16 @@ def correspondence(R, cases, results):
         impl = [r["depth"]] + list(r["dir"]) + list(r["pos"])
         stats["compared"] += 1
         stats["weights_arm_fallback"] += int(m[7] == 1 and r["final_portal"].get("state") == "PORTAL_WAS_BUILT")
-        dev = max(abs(float(a) - float(b)) if np.isfinite(a) and np.isfinite(b) else (0.0 if (a != a and b != b) or a == b else 1e300)
-                  for a, b in zip(m[:7], impl))
-        if dev <= CORR_TOL * L:
+        def dv(a, b):
+            return abs(float(a) - float(b)) if np.isfinite(a) and np.isfinite(b) else (0.0 if (a != a and b != b) or a == b else 1e300)
+        scale = max(1e-300, max(abs(x) for row in r["final_portal"]["v"] for x in row if np.isfinite(x)))
+        # the direction is (closest point) / depth: its conditioning is scale / depth; below eps the code zeroes it (a decision at depth = eps)
+        tol_dir = CORR_TOL + 1e-14 * scale / max(float(m[0]), float(impl[0]), 1e-300)
+        ok = (dv(m[0], impl[0]) <= CORR_TOL * L and all(dv(a, b) <= tol_dir for a, b in zip(m[1:4], impl[1:4]))
+              and all(dv(a, b) <= CORR_TOL * L for a, b in zip(m[4:7], impl[4:7])))
+        if tol_dir > 1e-3:
+            stats["direction_ill_conditioned"] = stats.get("direction_ill_conditioned", 0) + 1
+        if ok:
             stats["agree"] += 1
         else:
             stats["mismatch"] += 1
